@@ -575,7 +575,13 @@ func c10Check(c *ctx, prog string, d interface{}, in string, res goResult) {
 		}
 		c.disagree(Disagreement{Kind: "evalbytes-differs", Prog: prog, Input: d, InputS: in, Go: "EvalBytes: " + trunc(string(viaBytes), 200), Model: "encoding of Eval's value: " + trunc(string(enc), 200)})
 	}
-	// ErrUndefined iff the model has no value
+	// ErrUndefined iff the model has no value.  The model gives JSON null in the input its JSON meaning; the port
+	// represents it by the Go value that also stands for "does not exist" (jsonata-test/README.md, "Null handling"), so
+	// inputs containing null are compared for totality, representability and EvalBytes parity only (the quantifiers of
+	// C01/C14 exclude them for the same reason)
+	if jsonHasNull(d) {
+		return
+	}
 	m, err2 := c.drv.modelEval(prog, d)
 	if err2 == nil {
 		m = normaliseModel(m)
@@ -698,6 +704,26 @@ func inherentlyVaries(prog string, d interface{}) bool {
 		seen[goEval(prog, d).outcome] = true
 		if len(seen) > 1 {
 			return true
+		}
+	}
+	return false
+}
+
+func jsonHasNull(v interface{}) bool {
+	switch x := v.(type) {
+	case nil:
+		return true
+	case map[string]interface{}:
+		for _, e := range x {
+			if jsonHasNull(e) {
+				return true
+			}
+		}
+	case []interface{}:
+		for _, e := range x {
+			if jsonHasNull(e) {
+				return true
+			}
 		}
 	}
 	return false
